@@ -269,5 +269,18 @@ func DirectedCorpusTier(thorough bool) []Directed {
 		out = append(out, Directed{Name: "string-corners", Desc: &FileDesc{Header: stdHeader(), Blocks: []*Block{b}},
 			Node: [3]int64{3, 0, 0}, Way: evenIDs, Relation: evenIDs, Procs: []int{1, 3}})
 	}
+	// 9. a DenseNodes message without any column (what a protobuf encoder writes for a group without
+	//    nodes) between ordinary groups, and the same group with its three columns written with length 0
+	{
+		b := &Block{Strings: []string{""}}
+		dn := &Dense{Nodes: []DenseNode{{ID: 1, Lat: 1, Lon: 1, Info: Info{Visible: true}}, {ID: 2, Lat: 2, Lon: 2, Info: Info{Visible: true}}}}
+		b.Groups = []*Group{{Items: []Item{{Dense: dn}}}, {Items: []Item{{Dense: &Dense{OmitEmptyCols: true}}}},
+			{Items: []Item{{Way: &Way{ID: 5, Refs: []int64{1, 2}, Info: Info{Visible: true}}}, {Dense: &Dense{OmitEmptyCols: true}}, {Dense: &Dense{}}}},
+			{Items: []Item{{Dense: &Dense{Nodes: []DenseNode{{ID: 3, Lat: 3, Lon: 3, Info: Info{Visible: true}}}}}}}}
+		b2 := &Block{Strings: []string{""}, Groups: []*Group{{Items: []Item{{Dense: &Dense{OmitEmptyCols: true}}}}}}
+		b2.Layout = Layout{Unknown: true, Seed: 5}
+		out = append(out, Directed{Name: "empty-dense-message", Desc: &FileDesc{Header: stdHeader(), Blocks: []*Block{b, b2, b}},
+			Node: evenIDs, Way: all, Relation: all, Procs: []int{1, 2}})
+	}
 	return out
 }
